@@ -421,7 +421,11 @@ def correspondence(ctx, model_ok=True):
         n_rc = 2400 if ctx.thorough else 400
         gen = progs_mod.generated(rng.fork("reach"), ["data", "closures", "classes", "fibers", "iteration", "exceptions", "alloc", "typed", "typed-try"], n_rc)
         rc_progs = [("empty", "\n", {})] + [(n, s_, m) for n, s_, m, _ in gen] + [("twin:%s:%s" % (n, t), s_, {}) for n, a, b in TWINS for t, s_ in (("a", a), ("b", b)) if n not in SPEC_OVERAPPROXIMATES]
-        rc_lines = [vlib.case_line("rc%d" % i, progs_mod.module_steps(m, s_) + ["S:" + vlib.hx(s_), "G"], gc="default", steps=3000000) for i, (n, s_, m) in enumerate(rc_progs)]
+        # (an EMPTY snippet is run between the program and the census: a run that ended with an uncaught error leaves its fibers - the one that
+        # failed and, through the caller links, the ones that waited for it, with what their stacks hold - referenced by the interpreter until
+        # the next run starts; that is what one abandoned run occupies, for as long as the interpreter is idle, not something later runs
+        # accumulate, and the language-level reachable set knows nothing of it)
+        rc_lines = [vlib.case_line("rc%d" % i, progs_mod.module_steps(m, s_) + ["S:" + vlib.hx(s_), "S:" + vlib.hx("\n"), "G"], gc="default", steps=3000000) for i, (n, s_, m) in enumerate(rc_progs)]
         rreal = vlib.run_real(runner, rc_lines)
         try:
             rspec = specdiff.run_spec(rc_lines)
@@ -433,7 +437,7 @@ def correspondence(ctx, model_ok=True):
         for (name, src, mods), r, sp in zip(rc_progs, rreal, rspec):
             try:
                 rs, ss = r["steps"], sp["steps"]
-                st_r, st_s = rs[-2], ss[-2]
+                st_r, st_s = rs[-3], ss[-3]
                 cen_r, cen_s = census(rs[-1]["stats"]), ss[-1]
             except Exception:
                 continue
